@@ -145,25 +145,25 @@ func runRelayTransient(c *harness.Ctx) {
 // ---- relay ---------------------------------------------------------------------
 
 type farEnd struct {
-	name     string
-	conn     *simnet.Conn
-	dirOut   int
-	dirIn    int
-	chunks   []int
-	pauses   []int
-	endHow   string // "eof", "close", "rst", "stay"
-	produced int64  // bytes handed to Write successfully
-	ended    bool   // finished producing and performed its end action
-	endedAt  time.Duration
-	gotAtEnd int64 // bytes this far end had received when it performed its end action
-	got      int64
-	rdErr    error
-	rdDone   bool
-	rdStopped bool
-	slowRead int // ms between reads
+	name          string
+	conn          *simnet.Conn
+	dirOut        int
+	dirIn         int
+	chunks        []int
+	pauses        []int
+	endHow        string // "eof", "close", "rst", "stay"
+	produced      int64  // bytes handed to Write successfully
+	ended         bool   // finished producing and performed its end action
+	endedAt       time.Duration
+	gotAtEnd      int64 // bytes this far end had received when it performed its end action
+	got           int64
+	rdErr         error
+	rdDone        bool
+	rdStopped     bool
+	slowRead      int   // ms between reads
 	stopReadAfter int64 // -1: keeps reading; otherwise stops for good after that many bytes
-	endDelay time.Duration
-	failed   bool
+	endDelay      time.Duration
+	failed        bool
 }
 
 func runRelay(c *harness.Ctx) {
@@ -576,8 +576,8 @@ func runTermMon(c *harness.Ctx) {
 
 type stubTransport struct{}
 
-func (stubTransport) Name() string { return "stub" }
-func (stubTransport) ClientFactory(string) (base.ClientFactory, error) { return nil, nil }
+func (stubTransport) Name() string                                               { return "stub" }
+func (stubTransport) ClientFactory(string) (base.ClientFactory, error)           { return nil, nil }
 func (stubTransport) ServerFactory(string, *pt.Args) (base.ServerFactory, error) { return nil, nil }
 
 // stubServerFactory fails every handshake after a delay (as obfs4 does with probers).
@@ -612,7 +612,7 @@ type stubClientFactory struct {
 	inWork *int
 }
 
-func (f *stubClientFactory) Transport() base.Transport        { return stubTransport{} }
+func (f *stubClientFactory) Transport() base.Transport       { return stubTransport{} }
 func (f *stubClientFactory) ParseArgs(*pt.Args) (any, error) { return nil, nil }
 func (f *stubClientFactory) Dial(network, addr string, dialFn base.DialFunc, args any) (net.Conn, error) {
 	if f.inWork != nil {
